@@ -95,6 +95,21 @@ public:
         c2s().setResumed(resumed);
     }
     void setSmCanResume(bool can) { c2s().m_canResume = can; }
+    // Start a session the way the stream does after negotiation.  `sm`/`resumed` set the XEP-0198 state the
+    // managers see (streamManagementState()); the stream's ack manager is switched on in every case because without
+    // a socket a packet can only be "sent" into its unacknowledged queue (otherwise every send fails at once).
+    void beginSession(bool sm, bool resumed)
+    {
+        setSmState(sm, resumed);
+        setSmCanResume(sm);
+        setAuthenticated(true);
+        enableSm(!resumed);
+        openSession();
+    }
+    void endSession()
+    {
+        closeSession();
+    }
     bool sessionStarted() const { return d->stream->d->sessionStarted; }
     void openSession() { d->stream->openSession(); }
     void closeSession() { d->stream->closeSession(); }
